@@ -119,6 +119,8 @@ pub struct Cluster {
     /// Maximum rows per page of system-table answers (0 = honour the client).
     pub system_page_rows: usize,
     pub schema_version: [u8; 16],
+    /// Every statement id ever handed out (observer's knowledge, independent of eviction).
+    pub all_ids: BTreeMap<Vec<u8>, String>,
 }
 
 pub fn node_ip(i: usize) -> IpAddr {
@@ -148,6 +150,7 @@ impl Cluster {
             think_max: 500_000,
             system_page_rows: 0,
             schema_version: [7u8; 16],
+            all_ids: BTreeMap::new(),
         }
     }
 
@@ -324,6 +327,8 @@ pub trait Script: Send + 'static {
     fn rows_for(&mut self, _w: &mut World, _rq: &ReqInfo, stmt: &StmtDef) -> Vec<Vec<Cell>> {
         default_rows(stmt, _rq.marker)
     }
+    /// Called after the built-in behaviour answered a request.
+    fn after_builtin(&mut self, _w: &mut World, _rq: &ReqInfo, _req: &Request) {}
     /// Extra envelope (custom payload, warnings) for a built-in answer.
     fn envelope_for(&mut self, _w: &mut World, _rq: &ReqInfo, _req: &Request) -> Envelope {
         Envelope::default()
@@ -657,9 +662,15 @@ pub fn handle_frame(w: &mut World, conn: ConnId, frame: ReqFrame) {
     match reply {
         Reply::Default => {
             let d = w.think();
+            w.last_rows_answer = None;
             builtin(w, &mut *script, &rq, &req, d);
+            script.after_builtin(w, &rq, &req);
         }
-        Reply::DefaultAfter(d) => builtin(w, &mut *script, &rq, &req, d),
+        Reply::DefaultAfter(d) => {
+            w.last_rows_answer = None;
+            builtin(w, &mut *script, &rq, &req, d);
+            script.after_builtin(w, &rq, &req);
+        }
         Reply::Raw {
             opcode,
             body,
@@ -727,7 +738,7 @@ fn marker_of(w: &World, node: NodeId, req: &Request) -> Option<u64> {
         Request::Query { text, .. } => split_marker(text).1,
         Request::Prepare { text } => split_marker(text).1,
         Request::Execute { id, params, .. } => {
-            let text = w.cluster.nodes[node].prepared.get(id)?;
+            let text = w.cluster.nodes[node].prepared.get(id).or_else(|| w.cluster.all_ids.get(id))?;
             let stmt = &w.cluster.catalog[w.cluster.find_stmt(text)?];
             let idx = stmt.marker_bind?;
             match params.values.get(idx)? {
@@ -744,7 +755,7 @@ fn marker_of(w: &World, node: NodeId, req: &Request) -> Option<u64> {
             for (stmt, values) in &b.statements {
                 let text = match stmt {
                     BatchStmt::Query(t) => t.clone(),
-                    BatchStmt::Prepared(id) => match w.cluster.nodes[node].prepared.get(id) {
+                    BatchStmt::Prepared(id) => match w.cluster.nodes[node].prepared.get(id).or_else(|| w.cluster.all_ids.get(id)) {
                         Some(t) => t.clone(),
                         None => continue,
                     },
@@ -897,6 +908,7 @@ pub fn builtin(w: &mut World, script: &mut dyn Script, rq: &ReqInfo, req: &Reque
             w.cluster.nodes[rq.node]
                 .prepared
                 .insert(id.clone(), text.clone());
+            w.cluster.all_ids.insert(id.clone(), text.clone());
             let mid = w.cluster.result_metadata_id(&stmt);
             let md_ext = w.conns[conn].cql.metadata_id_ext;
             let body = wire::body_prepared(&PreparedBody {
@@ -987,14 +999,29 @@ fn answer_statement(
             } else {
                 None
             };
-            let no_metadata = prepared && params.skip_metadata;
+            // With the metadata-id extension the server compares the id presented by
+            // the EXECUTE with the current one and, on mismatch, sends the metadata
+            // together with the new id (whatever skip_metadata says).
+            let mut no_metadata = prepared && params.skip_metadata;
+            let mut new_metadata_id = None;
+            if prepared && w.conns[rq.conn].cql.metadata_id_ext {
+                if let Request::Execute { result_metadata_id: Some(presented), .. } = req {
+                    let current = w.cluster.result_metadata_id(stmt);
+                    if *presented != current {
+                        no_metadata = false;
+                        new_metadata_id = Some(current);
+                        w.probe("metadata_id_mismatch");
+                    }
+                }
+            }
+            w.last_rows_answer = Some((stmt.schema_version, !no_metadata));
             let body = wire::body_rows(
                 &stmt.result_cols,
                 &rows[offset..end],
                 &RowsOpts {
                     no_metadata,
                     paging_state,
-                    new_metadata_id: None,
+                    new_metadata_id,
                 },
             );
             w.respond(rq.conn, rq.stream, OP_RESULT, &body, &env, delay);
